@@ -47,7 +47,8 @@ TRUSTED = [
     "tree ops are atomic (single RWMutex in pid_tree.go), so an interleaving is a sequence of whole ops",
     "quiescence of an actor = empty mailbox and idle dispatch state (in-package read)",
 ]
-RULE = ("sys scripts: 2-9 actors (depth <= 3), 2-10 Watch/UnWatch ops incl. re-watch and double watch, 1-3 terminations by "
+RULE = ("sys scripts: 2-9 actors (depth <= 3), 2-10 Watch/UnWatch ops incl. re-watch and double watch, optional failures that "
+        "leave actors suspended (watched before and after), 1-3 terminations by "
         "Shutdown/PoisonPill/parent.Stop/Kill/Restart, optional system Stop; non-trivial = at least one Terminated was "
         "owed or received; distinct by (case, output)")
 TIMEOUT = 900
@@ -96,25 +97,38 @@ def _gen(rng, max_nodes):
         return out
 
     ops += watches(rng.randint(2, 8))
+    # failures: the actor is suspended by supervision (alive, not IsRunning); watches placed on it afterwards
+    # (and before) must still be honoured when it terminates
+    if rng.random() < 0.45:
+        for x in rng.sample(names, min(len(names), rng.randint(1, 2))):
+            ops.append(f"F:{x}")
+            sc.suspended.add(x)
+            for _ in range(rng.randint(0, 2)):
+                w = rng.choice(names)
+                if ok(w, x):
+                    ops.append(f"W:{w}:{x}")
+                    if rng.random() < 0.2:
+                        ops.append(f"U:{w}:{x}")
+        ops += watches(rng.randint(0, 2))
     for i in range(rng.randint(1, 3)):
         live = [x for x in names if x in sc.running]
         if not live:
             break
         x = rng.choice(live)
         r = rng.random()
-        if r < 0.12:
+        has_susp = any(y in sc.suspended for y in sc.sub(x))
+        if r < 0.12 and not has_susp:
             ops.append(f"R:{x}")
         else:
-            if r < 0.45:
+            if r < 0.45 or (x in sc.suspended and r < 0.65):
                 ops.append(f"K:{x}")
             elif r < 0.65:
                 ops.append(f"P:{x}")
-            elif r < 0.8 and sc.parent[x] is not None:
+            elif r < 0.8 and sc.parent[x] is not None and sc.usable(sc.parent[x]):
                 ops.append(f"T:{sc.parent[x]}:{x}")
             else:
                 ops.append(f"Q:{x}")
-            for y in sc.sub(x):
-                sc.running.discard(y)
+            sc.stop(x)
         if rng.random() < 0.4:
             ops += watches(rng.randint(1, 3))  # includes watching stopped actors (no-op) and by stopped actors
     if rng.random() < 0.2:
@@ -123,6 +137,11 @@ def _gen(rng, max_nodes):
 
 
 FIXED = [
+    # watching a SUSPENDED actor (failed, parked by supervision, alive) is a watch like any other
+    "sys S:a1 C:a1:a2 S:a3 S:a4 W:a3:a2 F:a2 W:a4:a2 T:a1:a2",
+    "sys S:a1 S:a2 F:a1 W:a2:a1 K:a1",
+    "sys S:a1 S:a2 F:a1 W:a2:a1 U:a2:a1 Q:a1",
+    "sys S:a1 S:a2 W:a1:a2 F:a1 K:a2",
     "sys S:a1 S:a2 W:a2:a1 K:a1",
     "sys S:a1 S:a2 W:a2:a1 U:a2:a1 K:a1",
     "sys S:a1 S:a2 W:a2:a1 W:a2:a1 P:a1",
@@ -157,9 +176,12 @@ def _spec(case):
         if k == "S":
             sc.spawn(f[1])
         elif k == "C":
-            if f[1] in sc.running:
+            if sc.usable(f[1]):
                 sc.spawn(f[2], f[1])
                 W.add((f[1], f[2]))
+        elif k == "F":
+            if sc.usable(f[1]):
+                sc.suspended.add(f[1])
         elif k == "W":
             if f[1] in sc.running and f[2] in sc.running:
                 W.add((f[1], f[2]))
@@ -170,7 +192,7 @@ def _spec(case):
             x = f[2] if k == "T" else f[1]
             dead = {y for y in sc.sub(x) if y in sc.running} if x in sc.parent else set()
             for (w, y) in sorted(W):
-                if y in dead and w not in dead and w in sc.running:
+                if y in dead and w not in dead and sc.usable(w):
                     owed[(w, y)] = owed.get((w, y), 0) + 1
                     history.append((i, "owed", (w, y)))
             if k == "R":
@@ -183,9 +205,11 @@ def _spec(case):
             else:
                 W = {(w, y) for (w, y) in W if w not in dead and y not in dead}
                 sc.running -= dead
+            sc.suspended -= dead
         elif k == "Z":
             racy |= sc.running
             sc.running.clear()
+            sc.suspended.clear()
             W = set()
     return owed, racy, history
 
@@ -253,7 +277,7 @@ def is_trivial(case, impl):
 
 
 def tag(case, impl):
-    kinds = sorted({t.split(":")[0] for t in case.split()[1:]} & set("KPQTRZU"))
+    kinds = sorted({t.split(":")[0] for t in case.split()[1:]} & set("KPQTRZUF"))
     return "".join(kinds) + (":inconclusive" if impl and _c09._inconclusive(impl) else "")
 
 
